@@ -236,7 +236,9 @@ func genLex(t *rapid.T) lexCase {
 			{"day-00", func() string { return date[:8] + "00" + "T" + clock + frac + zone }},
 			{"hour-25", func() string { return date + "T25" + clock[2:] + frac + zone }},
 			{"minute-60", func() string { return date + "T" + clock[:3] + "60" + clock[5:] + frac + zone }},
-			{"trailing-garbage", func() string { return good + rapid.SampledFrom([]string{"x", " ", "Z", "+", "0", "\n", "T00"}).Draw(t, "garb") }},
+			{"trailing-garbage", func() string {
+				return good + rapid.SampledFrom([]string{"x", " ", "Z", "+", "0", "\n", "T00"}).Draw(t, "garb")
+			}},
 			{"leading-garbage", func() string { return rapid.SampledFrom([]string{"x", " ", "+", "\t"}).Draw(t, "garb") + good }},
 			{"non-digit", func() string {
 				i := rapid.SampledFrom([]int{0, 3, 5, 8, 11, 14, 17}).Draw(t, "pos")
@@ -249,7 +251,9 @@ func genLex(t *rapid.T) lexCase {
 			}},
 			{"slashes", func() string { return strings.ReplaceAll(date, "-", "/") + "T" + clock + frac + zone }},
 			{"unix", func() string { return fmt.Sprintf("%d", sec) }},
-			{"words", func() string { return rapid.SampledFrom([]string{"now", "yesterday", "T", "Z", "-", "0", "null"}).Draw(t, "w") }},
+			{"words", func() string {
+				return rapid.SampledFrom([]string{"now", "yesterday", "T", "Z", "-", "0", "null"}).Draw(t, "w")
+			}},
 		}
 		m := muts[rapid.IntRange(0, len(muts)-1).Draw(t, "mut")]
 		text := m.f()
